@@ -26,7 +26,7 @@ import (
 func init() {
 	reg.Register(&reg.Spec{ID: "C07",
 		Imports: "From verif Require Import lib.Base model.C07.",
-		Judge:   "C07.judge", Shard: 6, Run: run})
+		Judge:   "C07.judge", Shard: 4, Run: run})
 }
 
 type hkey struct{ id int }
@@ -49,15 +49,13 @@ func (o opRec) String() string {
 	return fmt.Sprintf("v%d.dissoc(%s)", o.Ver, k)
 }
 
+// coq: two numbers per operation: ver*8192 + (key code)*2 + kind, value.
 func (o opRec) coq() string {
-	k := None()
-	if o.Key >= 0 {
-		k = Some(N(uint64(o.Key)))
-	}
+	kind := 0
 	if o.Assoc {
-		return App("OAssoc", Nat(o.Ver), k, N(uint64(o.Val)))
+		kind = 1
 	}
-	return App("ODissoc", Nat(o.Ver), k)
+	return fmt.Sprintf("%d;%d", o.Ver*8192+(o.Key+1)*2+kind, o.Val)
 }
 
 // obs is what one version shows through the Map API.
@@ -378,7 +376,7 @@ func history(c *reg.Ctx, shape string, steps int) {
 	hcoq := make([]string, n)
 	hstr := make([]string, n)
 	for i, h := range hs {
-		hcoq[i] = fmt.Sprint(h)
+		hcoq[i] = fmt.Sprintf("%d;%d", h>>16, h&0xffff)
 		hstr[i] = fmt.Sprintf("%08x", h)
 	}
 	ocoq := make([]string, len(ops))
@@ -420,7 +418,7 @@ func history(c *reg.Ctx, shape string, steps int) {
 		cs.Direct = direct
 		cs.Desc = desc{Shape: shape, Hashes: hstr, Ops: strings.Join(ostr, " "), Note: direct}
 	} else {
-		cs.Coq = App("mkCase", nlistN(hcoq), List(ocoq), List(vcoq), List(late), "[]")
+		cs.Coq = App("mkCaseC", nlistN(hcoq), nlist(ocoq), List(vcoq), List(late), "(@nil N)")
 	}
 	c.Emit(cs)
 }
@@ -445,11 +443,11 @@ func popCases(c *reg.Ctx, n int) {
 	}
 	items := make([]string, len(us))
 	for i, u := range us {
-		items[i] = Pair(N(uint64(u)), N(uint64(hashmap.VerifPopCount(u))))
+		items[i] = fmt.Sprintf("%d;%d;%d", u>>16, u&0xffff, hashmap.VerifPopCount(u))
 	}
 	c.Count("popcount-samples")
 	c.Emit(reg.Case{
-		Coq:        App("mkCase", "[]", "[]", "[mkObs 0%Z (@nil N) (@nil N)]", "[]", List(items)),
+		Coq:        App("mkCaseC", "(@nil N)", "(@nil N)", "[mkObs 0%Z (@nil N) (@nil N)]", "[]", nlist(items)),
 		Desc:       desc{Shape: "popcount", Note: fmt.Sprintf("%d values of popCount", len(us))},
 		Key:        fmt.Sprintf("popcount/%d/%d", c.Seed, len(us)),
 		Nontrivial: true,
